@@ -240,7 +240,8 @@ fn replay(args: &Args, file: &str) -> i32 {
     let mut outs = Vec::new();
     for _ in 0..2 {
         let cf = crash_file(&args.prop);
-        let c = worker_cmd(args, tier, Some((ord, idx)), &cf);
+        // ord 0 = an oracle over the whole run: replay by re-running everything
+        let c = worker_cmd(args, tier, if ord == 0 { None } else { Some((ord, idx)) }, &cf);
         let (code, out, to) = run_with_timeout(c, 900);
         let _ = std::fs::remove_file(&cf);
         let lines: Vec<String> = out
